@@ -454,6 +454,8 @@ impl GdsImporter {
     /// model of ErrorHelper::fail: always an error
     #[verifier::external_body]
     fn fail<T, M>(&self, msg: M) -> (r: LayoutResult<T>) ensures r is Err { Err(LayoutError { }) }
+    //@ pin layout21raw/src/gds.rs :: impl GdsImporter :: fn import_element_layer @47b523f6
+    //@ pin layout21raw/src/data.rs :: impl Layers :: fn get_or_insert @8ccc5028
     /// model of import_element_layer (`layers.write()?.get_or_insert(spec.layer, spec.xtype)`): the key it returns stands for the element's
     /// GDSII layer number (`knum`; keys are never renumbered) — assumption, the shared layer table is outside the unit
     #[verifier::external_body]
@@ -594,15 +596,27 @@ impl GdsImporter {
 //|         proof { assert(self.ctx@ =~= old(self).ctx@); }
 //@ end
 }
+/// model of the plumbing `Option<f64>::map(f)` (rule R6) for a closure that must be the identity on angles: the closure itself is the REAL
+/// closure of the source, verified against `ensures r == a` (raw and GDSII angles are both counter-clockwise degrees)
+#[verifier::external_body]
+pub fn vp_opt_map_f64<F: Fn(f64) -> f64>(o: Option<f64>, f: F) -> (r: Option<f64>)
+    requires forall|a: f64| #[trigger] f.requires((a,)), forall|a: f64, b: f64| #[trigger] f.ensures((a,), b) ==> b == a,
+    ensures r == o,
+{ o.map(f) }
+/// `f64::from(f64)`: the reflexive conversion
+#[verifier::external_body]
+pub fn vp_f64_from(a: f64) -> (r: f64) ensures r == a { f64::from(a) }
 impl<'lib> GdsExporter<'lib> {
 //@ fn layout21raw/src/gds.rs :: impl<'lib> GdsExporter<'lib> :: fn export_instance
 //@   ret r
-//@   sub R6 /inst\.angle\.map\(\|a\| f64::from\(a\)\)/ => inst.angle
+//@   sub R6 /inst\.angle\.map\(\|a\| ([^;\n]*)\);/ => vp_opt_map_f64(inst.angle, |a: f64| -> (r: f64) ensures r == a { \1 });
+//@   sub R6? /f64::from\(a\)/ => vp_f64_from(a)
 //@   spec
 //|     ensures final(self).lib == old(self).lib, r is Ok ==> final(self).ctx@ == old(self).ctx@ && sref_gds(r->Ok_0, *inst),
 //@   before /^        Ok\(gdsinst\)$/
 //|         proof { assert(self.ctx@ =~= old(self).ctx@); }
 //@ end
+    //@ pin layout21raw/src/gds.rs :: impl<'lib> GdsExporter<'lib> :: fn export_abstract @e86abe18
     /// abstract views are outside the units: ASSUMED frame only (the error-context stack is restored, the library untouched)
     #[verifier::external_body]
     fn export_abstract(&mut self, abs: &Abstract) -> (r: LayoutResult<gds21::GdsStruct>)
@@ -643,6 +657,7 @@ impl<'lib> GdsExporter<'lib> {
 //@   before /^        self\.ctx\.pop\(\);\n        Ok\(gdslib\)|^        Ok\(gdslib\)$/
 //|         proof { assert(self.lib.cells@.take(self.lib.cells@.len() as int) == self.lib.cells@); }
 //@ end
+    //@ pin layout21raw/src/gds.rs :: impl<'lib> GdsExporter<'lib> :: fn export_layerspec @01a7607d
     /// model of GdsExporter::export_layerspec (reads the library's layer table): the pair's numbers, or an error if the layer or the purpose is not defined
     #[verifier::external_body]
     pub fn export_layerspec(&mut self, layer: &LayerKey, purpose: &LayerPurpose) -> (r: LayoutResult<gds21::GdsLayerSpec>)
